@@ -124,3 +124,15 @@ Theorem C05_source_failure_cache_ttl : forall uttl fttl has_backend,
           if -1 <? eff_failed fttl then Some (errors_cache (eff_failed fttl)) else None).
 Proof. exact tie_failover_defaults. Qed.
 Print Assumptions C05_source_failure_cache_ttl.
+
+(* ---- the single-flight predicate of the correspondence check is proved of the model ---- *)
+From Cache Require Import FailoverRun FailoverObs FailoverSingleObs.
+
+(* SyncRead on, backend coherent on the log (a stored build result stays readable — the scenarios of the check keep it
+   fresh): once the result of a build of k has been stored, no builder is invoked for k again.  "Build result" is read
+   off the trace as the check does: a successful write of a thread after its own builder returned. *)
+Theorem C05_trace_predicate_sound : forall fe nilb c ls s,
+  f_sync_read c = true -> frun fe nilb c f0 ls = Some s -> (forall k, coherent k (flog s)) ->
+  C05_single_obs (flog s) = true.
+Proof. exact c05_single_holds. Qed.
+Print Assumptions C05_trace_predicate_sound.
